@@ -3,6 +3,7 @@
 mod c15;
 mod c18;
 mod c35;
+mod c40;
 mod actions;
 mod c20;
 mod c21;
@@ -52,6 +53,7 @@ fn main() {
         "C35" => c35::run(&cli),
         "C38" => lpcomp::run_c38(&cli),
         "C39" => lpcomp::run_c39(&cli),
+        "C40" => c40::run(&cli),
         "C36" => tlworld::run_c36(&cli),
         other => {
             eprintln!("unknown property {other}");
